@@ -4,6 +4,7 @@ import GridVerif.Props.C14.Dipole
 import GridVerif.Props.C14.Gen
 import GridVerif.Props.C14.GenNum
 import GridVerif.Props.C14.GenDipole
+import GridVerif.Props.C14.GenAdditive
 
 #print axioms GridVerif.C14.cartesian_orders_spec
 #print axioms GridVerif.C14.pure_orders_spec
@@ -36,3 +37,6 @@ import GridVerif.Props.C14.GenDipole
 #print axioms GridVerif.C14.gen_integrate_spec
 #print axioms GridVerif.C14.gen_moments_defaults
 #print axioms GridVerif.C14.gen_multidomain_not_implemented
+#print axioms GridVerif.C14.gen_moments_additive
+#print axioms GridVerif.C14.gen_integrate_additive
+#print axioms GridVerif.C14.gen_returns_fresh
